@@ -16,13 +16,13 @@ from ..fmutil import T, ad, err_class, fm, scalar, us
 
 MODULES = ["Output", "OutputLemmas"]
 GEN_OBLIGATIONS = ["caching_push_based", "push_based_adapters_are_caching", "passthrough_flags", "slot_flags"]
-KINDS = ["direct", "scale", "prev", "next", "scale_prev", "prev_scale", "scale_shared", "callback"]
+KINDS = ["direct", "scale", "prev", "next", "scale_prev", "prev_scale", "scale_shared", "callback", "dpush_shared"]
 PUSH_BASED = {"prev", "next", "scale_prev", "prev_scale"}
 
 
 def gen_case(rng, max_events=40):
     n = rng.choice([1, 1, 2, 2, 2, 3, 3, 4])
-    eps = [rng.choices(KINDS, weights=[36, 16, 10, 8, 8, 8, 14, 9])[0] for _ in range(n)]
+    eps = [rng.choices(KINDS, weights=[36, 16, 10, 8, 8, 8, 14, 9, 9])[0] for _ in range(n)]
     scale = rng.choice([1, 1, 2, 1000, 3_600_000_000, 86_400_000_000])
     gaps = rng.choice([[1, 2, 3], [2, 4, 6, 10], [1, 5, 7, 20], [3]])
     t = rng.randrange(0, 5) * scale
@@ -64,11 +64,22 @@ def build(case):
     out = fm.Output(name="out", info=info)
     inputs, regs, adapters = [], [], []
     shared = None
+    dshared = None
     for i, kind in enumerate(case["endpoints"]):
         inp = fm.Input(name=f"in{i}", info=fm.Info(time=None, grid=None, units=None))
         if kind == "callback":
             # an input that is notified of publications but pulls on its own schedule (later, older times)
             inp = fm.CallbackInput(callback=lambda caller, time: None, name=f"in{i}", info=fm.Info(time=None, grid=None, units=None))
+        if kind == "dpush_shared":
+            # inputs behind one DelayToPush object (it forwards min(requested time, newest publication) for each of them)
+            if dshared is None:
+                dshared = ad.DelayToPush()
+                out >> dshared
+            dshared >> inp
+            inputs.append(inp)
+            adapters.append([dshared])
+            regs.append(inp)
+            continue
         if kind == "scale_shared" and shared is not None:
             # a second (third, ...) input behind the same pass-through adapter object: the adapter branches
             shared >> inp
@@ -128,7 +139,7 @@ def run_impl(case, unlimited=False):
             except Exception as e:  # noqa
                 answers.append({"err": err_class(e)})
         lens.append(len(out.data))
-    lasts = [us(out._connected_inputs[r]) for r in regs]
+    lasts = [us(out._connected_inputs[r]) if r in out._connected_inputs else "not-registered" for r in regs]
     return {"answers": answers, "lens": lens, "registered_ok": reg_ok, "lasts": lasts}
 
 
@@ -147,9 +158,18 @@ def model_request(case):
                     evs.append(["pull", k, ev[1]])
                     group.append(gi)
         else:
-            evs.append(["pull", ev[1], ev[2]])
+            evs.append(["pull", ev[1], effective_request(case, gi)])
             group.append(gi)
     return {"op": "c09", "n": len(eps), "events": evs}, group
+
+
+def effective_request(case, gi):
+    """the time that reaches the output for pull event `gi`: behind a DelayToPush it is min(requested, newest publication)"""
+    ev = case["events"][gi]
+    if case["endpoints"][ev[1]] != "dpush_shared":
+        return ev[2]
+    pubs = [e[1] for e in case["events"][:gi] if e[0] == "push"]
+    return min(ev[2], pubs[-1]) if pubs else ev[2]
 
 
 def compare(case, impl, model, group):
@@ -192,7 +212,7 @@ def oracle(case, impl):
                 if kind in PUSH_BASED:
                     last[k] = ev[1]
         elif "ok" in (impl["answers"][gi] or {}):
-            last[ev[1]] = ev[2]
+            last[ev[1]] = effective_request(case, gi)
         if all(x is not None for x in last):
             m = min(last)
             bound = sum(1 for p in pubs if p > m) + 1
